@@ -705,6 +705,16 @@ func (fsm *fsm) stateChange(nextState bgp.FSMState, reason *fsmStateReason) {
 
 		negotiateTimers(&conf, body)
 
+		// what the previous session negotiated says nothing about this one
+		conf.GracefulRestart.State.Enabled = false
+		conf.GracefulRestart.State.NotificationEnabled = false
+		conf.GracefulRestart.State.LongLivedEnabled = false
+		for i := range conf.AfiSafis {
+			conf.AfiSafis[i].MpGracefulRestart.State.Received = false
+			conf.AfiSafis[i].LongLivedGracefulRestart.State.Enabled = false
+			conf.AfiSafis[i].LongLivedGracefulRestart.State.Received = false
+		}
+
 		gr, ok := fsm.capMap[bgp.BGP_CAP_GRACEFUL_RESTART]
 		if conf.GracefulRestart.Config.Enabled && ok {
 			state := &conf.GracefulRestart.State
